@@ -18,6 +18,9 @@ META = dict(
 )
 
 
+SPLIT_DEPTH = 10
+
+
 def tasks(tier):
     out = [("read", dict(kind="fixed"))]
     sizes = [12, 21, 25] if tier == "quick" else list(range(12, 26))
